@@ -179,9 +179,11 @@ def _evict(keep, max_keys=6):
     try:
         keys = [k for k in os.listdir(CACHE) if os.path.isdir(os.path.join(CACHE, k))]
         keys.sort(key=lambda k: os.stat(os.path.join(CACHE, k)).st_mtime)
+        now = time.time()
         while len(keys) > max_keys:
             k = keys.pop(0)
-            if k != keep:
+            # a recently touched key may belong to a concurrent run against another tree (seed matrix workers)
+            if k != keep and now - os.stat(os.path.join(CACHE, k)).st_mtime > 1800:
                 shutil.rmtree(os.path.join(CACHE, k), ignore_errors=True)
     except OSError:
         pass
